@@ -12,7 +12,7 @@ from sa.report import Ctx
 
 from .common import generic_sweeps
 
-from .sat_common import check_binary_add
+from .sat_common import check_binary_add, check_input_copy
 from .cp_common import check_alldiff_coverage, check_constraint_table, check_small_semantics, check_cumulative_horizon, check_id_allocation, check_solve_is_read_only, check_domain_fields_fixed, check_report_filter, check_unsat_sites, default_raises, dispatcher_tags, flattener_tags, produced_tags, shape_dispatch_falls_through, structural_len_subjects
 
 EXPLANATION = (
@@ -160,6 +160,7 @@ def run(ctx: Ctx):
     ctx.step(check_unsat_sites, "C05-O14")
     # the encoder emits two-literal clauses with a repeated literal ([-b, -b] for x != x): the SAT back-end files them
     ctx.step(check_binary_add, "C05-O14")
+    ctx.step(check_input_copy, "C05-O14")  # the encoder emits clauses with a repeated literal ([-a, -a] for x != x, for a variable listed twice): none may be filtered away
     generic_sweeps(ctx, skip_stutter_modules=("solvor/sat.py",))
 
 
@@ -490,7 +491,13 @@ def _v_two_free_wrong_coefficient(tree):
     g = M.find_func(tree, "Model._propagate_ne_expr")
     M.replace_expr(g, lambda e: M.src_is(e, "{k2 * v for v in domains[n2]}"), M.expr("{k1 * v for v in domains[n2]}"))
 
+def _v_sat_drops_repeated_literal_clauses(tree):
+    g = M.find_func(tree, "solve_sat")
+    M.replace_expr(g, lambda e: isinstance(e, ast.ListComp) and M.src_is(e, "[list(c) for c in clauses]"), M.expr("[list(c) for c in clauses if len({abs(lit) for lit in c}) == len(c)]"))
+
+
 VARIANTS = [
+    M.Variant("solve_sat leaves out every clause that mentions a variable twice, [-a, -a] included (seed C05-AA)", "solvor/sat.py", _v_sat_drops_repeated_literal_clauses, "C05-O14"),
     M.Variant("two-free-variable pruning multiplies the second variable's values by the first coefficient (seed C05-Y)", CP, _v_two_free_wrong_coefficient, "C05-O4"),
     M.Variant("the DFS report drops every name that starts with an underscore, the caller's own included (original defect, ledger row 80)", CP, _v_report_filter_by_spelling, "C05-O13"),
     M.Variant("int_var records every underscore name as made up by the model", CP, _v_named_variable_recorded_as_unnamed, "C05-O13"),
